@@ -9,7 +9,7 @@ CONSTANT HashPar = {0, 1, 2, 3, 4}
 CONSTANT Variants = {"indef", "nonfinite1", "mininf"}
 CONSTANT FitDesigns = {"o1s1", "o1s2", "o1s4", "o2s1", "o2s2", "o2s2w", "o3s1", "o3s1w"}
 CONSTANT FitMult = {0, 1}
-CONSTANT FitNmin = 2
+CONSTANT FitNmin = 1
 CONSTANT FitNmax = 4
 CONSTANT YSel = "all"
 CONSTANT WMode = "patterns"
@@ -35,6 +35,8 @@ INVARIANT C09b_LinearInY
 INVARIANT C09b_WeightScaleInvariant
 INVARIANT C09b_YHomogeneous
 INVARIANT C09b_SupportScaleInvariant
+INVARIANT C09b_GridScaleInvariant
+INVARIANT C09b_GridSupportInvariant
 INVARIANT C09b_PolyReproduced
 INVARIANT C09b_SupportAgrees
 INVARIANT C09b_WellSupportedIsWellPosed
